@@ -85,11 +85,12 @@ class Node:
         s.deadline = None
         dt = (s.now - t0) // 1000
         q1 = len(o.queue)
+        left = len(chip.rx) if exc == "none" else 0       # payloads update() neither consumed nor discarded
         sent = [p["data"] for p in self.air.log]
         while o.available():
             o.read()
         return dict(k="seq", role=self.role, level=self.level, addr=self.addr, raws=[list(r) for r in raws], exc=exc,
-                    queued=max(0, q1 - q0), ntx=len(sent), sent=sent, dt=int(dt), bound=1200000, cls="seq", typ=-2)
+                    queued=max(0, q1 - q0), ntx=len(sent), sent=sent, dt=int(dt), bound=1200000, cls="seq", typ=-2, left=left)
 
     def feed(self, raw, pipe):
         chip, o, s = self.chip, self.o, self.s
@@ -132,7 +133,7 @@ class Node:
                              type=fr.header.message_type, msg=list(fr.message))
             first = False
         return dict(k="inj", role=self.role, level=self.level, addr=self.addr, raw=list(raw), exc=exc, queued=max(0, q1 - q0),
-                    ntx=len(sent), sent=sent, dt=int(dt), bound=400000, cfg=cfg, ret=int(ret) if isinstance(ret, int) else -1,
+                    ntx=len(sent), sent=sent, dt=int(dt), bound=400000, left=(len(chip.rx) if exc == "none" else 0), cfg=cfg, ret=int(ret) if isinstance(ret, int) else -1,
                     sent_full=sent_full, qhead=qhead, prefix=0xCC, suffix=[0xC3, 0x3C, 0x33, 0xCE, 0x3E, 0xE3])
 
 
@@ -176,7 +177,7 @@ def work(args):
         H = lambda frm, to, typ, n=2: struct.pack("<HHHBB", frm, to, rng.randrange(65536), typ, 5) + bytes([5, 0, 1, 2][:n])
         pool = [H(0o2, me, 0), H(0o2, 0o100, 196), H(0o2, 0o100, 198), H(0o2, 0o100, 195), H(0o2, 0o100, 194), H(0o2, me, 196),
                 H(0o2, me, 198), H(0o2, me, 197), H(0o7, me, 0), H(0o7, 0o100, 1), H(0o2, 0o60, 0), H(0xFFFF, me, 196),
-                H(0o7, me, 198), H(0o2, me, 148, 4), H(0o2, me, 150, 4), b"\x01\x02\x03", H(0o2, 0o3 if me != 0o3 else 0o4, 65),
+                H(0o7, me, 198), H(0o2, me, 148, 4), H(0o2, me, 150, 4), b"\x01\x02\x03", b"", H(0o2, 0o3 if me != 0o3 else 0o4, 65),
                 H(0o12, me, 195), H(0o312, 0o100, 195), H(0o2, 0o6, 0), H(0o2, 0o17, 65)]   # requests relayed by level-2/3 nodes: the master's answer is routed and waits for a NETWORK_ACK while the next frames arrive
         seqs = [(a, b) for a in pool for b in pool]
         seqs += [tuple(rng.choice(pool) for _ in range(3)) for _ in range(60)]
